@@ -125,7 +125,7 @@ func TestProp_Listener(t *testing.T) {
 			}
 			n.certs = n.a.Creds.CertificateBundles
 			if nodeIDLookup && rapid.Bool().Draw(t, "giveNodeId") {
-				n.nodeID = rapid.SampledFrom([]string{"N1", "N2"}).Draw(t, "nodeId")
+				n.nodeID = rapid.SampledFrom([]string{"N1", "N2", "n1"}).Draw(t, "nodeId")
 				if err := w.EditNode(n.a.KeyID, func(ni *types.NodeInformation) { ni.NodeId = n.nodeID }); err != nil {
 					t.Fatalf("edit: %v", err)
 				}
